@@ -316,6 +316,9 @@ class Canon:
         if isinstance(e, ast.Subscript) and isinstance(e.value, (ast.Tuple, ast.List)) and isinstance(e.slice, ast.Constant) and isinstance(e.slice.value, int) and not any(isinstance(x, ast.Starred) for x in e.value.elts):
             if -len(e.value.elts) <= e.slice.value < len(e.value.elts):
                 return e.value.elts[e.slice.value]
+        if isinstance(e, ast.Subscript) and isinstance(e.value, ast.Call) and isinstance(e.value.func, ast.Name) and e.value.func.id in ("list", "tuple") and len(e.value.args) == 1 \
+                and isinstance(e.value.args[0], (ast.Name, ast.Attribute)) and not isinstance(e.slice, ast.Slice):
+            e.value = e.value.args[0]
         if isinstance(e, ast.Subscript) and isinstance(e.slice, (ast.BinOp,)):
             e.slice = self.linear(e.slice, True)
         return e
@@ -378,9 +381,36 @@ class Canon:
 
 
 # ------------------------------------------------------------------ atoms
+def _bit_of(e):
+    """(X, K) when e is `X & (1 << K)` or `(X >> K) % 2` (after canonicalisation), else None; second item says which"""
+    if isinstance(e, ast.BinOp) and isinstance(e.op, ast.BitAnd):
+        for a, b in ((e.left, e.right), (e.right, e.left)):
+            if isinstance(a, ast.BinOp) and isinstance(a.op, ast.LShift) and isinstance(a.left, ast.Constant) and a.left.value == 1:
+                return norm(b), norm(a.right), "mask"
+            if isinstance(a, ast.Constant) and isinstance(a.value, int) and a.value > 0 and a.value & (a.value - 1) == 0:
+                return norm(b), str(a.value.bit_length() - 1), "mask"
+    if isinstance(e, ast.BinOp) and isinstance(e.op, ast.Mod) and isinstance(e.right, ast.Constant) and e.right.value == 2 and isinstance(e.left, ast.BinOp) and isinstance(e.left.op, ast.RShift):
+        return norm(e.left.left), norm(e.left.right), "shift"
+    if isinstance(e, ast.BinOp) and isinstance(e.op, ast.Mod) and isinstance(e.right, ast.Constant) and e.right.value == 2:
+        return norm(e.left), "0", "shift"
+    return None
+
+
 def _cmp_atoms(canon, left, op, right, leaf):
     """formula for one comparison, reduced to == and < atoms"""
     lt, rt = norm(left), norm(right)
+    if isinstance(op, (ast.Eq, ast.NotEq)):
+        for x, k in ((left, right), (right, left)):
+            b = _bit_of(x)
+            if b is not None and isinstance(k, ast.Constant) and isinstance(k.value, int) and not isinstance(k.value, bool):
+                atom = leaf(x, "bit(%s, %s)" % (b[0], b[1]))
+                if k.value == 0:
+                    f = f_not(atom)
+                elif b[2] == "shift" and k.value == 1:
+                    f = atom
+                else:
+                    break
+                return f if isinstance(op, ast.Eq) else f_not(f)
     if isinstance(left, ast.Constant) and isinstance(right, ast.Constant) and type(left.value) is type(right.value) and isinstance(left.value, (int, str, bytes)) \
             and isinstance(op, (ast.Eq, ast.NotEq, ast.Lt, ast.Gt, ast.LtE, ast.GtE)):
         import operator
@@ -463,6 +493,8 @@ class SymWalker:
         self.loop_in = {}       # id(loop) -> [State] on entry (before havoc)
         self.final = []         # states falling off the end
         self.feasible = feasible or _prop_feasible
+        self.converted = {}     # id(loop) -> >0 when every visit of the loop was rewritten as a comprehension
+        self.functional = functional_locals(func_node) if isinstance(func_node, (ast.FunctionDef, ast.AsyncFunctionDef)) else set()
 
     # ---------------------------------------------------------------- values
     def sub(self, e, env=None):
@@ -544,6 +576,9 @@ class SymWalker:
                 fs.append(_cmp_atoms(self.canon, left, op, right, self.leaf))
                 left = right
             return f_and(*fs)
+        b = _bit_of(t)
+        if b is not None:
+            return self.leaf(t, "bit(%s, %s)" % (b[0], b[1]))
         return self.leaf(t, "truthy(%s)" % norm(t))
 
     # ------------------------------------------------------------------ walk
@@ -624,6 +659,8 @@ class SymWalker:
             for n in ast.walk(x):
                 if isinstance(n, ast.Name) and isinstance(n.ctx, (ast.Store, ast.Del)):
                     out.add(n.id)
+                if isinstance(n, ast.Call) and isinstance(n.func, ast.Attribute) and isinstance(n.func.value, ast.Name) and n.func.value.id in self.functional and n.func.attr in ("append", "extend"):
+                    out.add(n.func.value.id)
         return out
 
     def _bind(self, target, value):
@@ -658,6 +695,45 @@ class SymWalker:
         else:
             self.guards[id(st)] = c
         self.tests.setdefault(id(st), ctest)
+
+    def _as_comprehension(self, st, it, s, outs, assigned, n_exits, n_eff):
+        """for t in IT: X.append(E)   (X a functional local, nothing else carried, no exits)  ==  X = X0 + [E for t in IT]"""
+        if len(outs) != 1 or len(self.exits) != n_exits or not isinstance(st.target, (ast.Name, ast.Tuple)):
+            return None
+        if any(e.kind in ("break", "continue", "setattr", "setitem", "augattr", "augitem", "delitem", "yield") for e in self.effects[n_eff:]):
+            return None
+        out = outs[0]
+        if repr(out.reach) != repr(s.reach):
+            return None
+        tgt = {x.id for x in ast.walk(st.target) if isinstance(x, ast.Name)}
+        temps = _loop_temporaries(st, self.node)
+        carried = [k for k in assigned - tgt - temps if not (isinstance(out.env.get(k), ast.Name) and out.env[k].id == k)]
+        fl = [k for k in self.functional if k in out.env and not (isinstance(out.env[k], ast.Name) and out.env[k].id == k) and k not in carried
+              and (k in assigned or k not in s.env or norm(out.env[k]) != norm(s.env[k]))]
+        names = set(carried) | set(fl)
+        if len(names) != 1:
+            return None
+        x = names.pop()
+        if x not in self.functional:
+            return None
+        v = out.env.get(x)
+        if not (isinstance(v, ast.BinOp) and isinstance(v.op, ast.Add) and isinstance(v.left, ast.Name) and v.left.id == x and isinstance(v.right, ast.List) and len(v.right.elts) == 1):
+            return None
+        elt = v.right.elts[0]
+        if any(isinstance(n, ast.Name) and n.id == x for n in ast.walk(elt)):
+            return None
+        comp = ast.ListComp(copy.deepcopy(elt), [ast.comprehension(copy.deepcopy(st.target), copy.deepcopy(it), [], 0)])
+        for n in ast.walk(comp.generators[0].target):
+            if isinstance(n, ast.Name):
+                n.ctx = ast.Store()
+        x0 = s.env.get(x)
+        if x0 is None:
+            return None
+        if isinstance(x0, ast.List) and not x0.elts:
+            val = comp
+        else:
+            val = ast.BinOp(copy.deepcopy(x0), ast.Add(), comp)
+        return x, self.canon.expr(val)
 
     def _find_ifexp(self, st):
         """first conditional expression of a simple statement that is evaluated unconditionally (not under a lambda /
@@ -775,9 +851,20 @@ class SymWalker:
                     cond = self.atomize(st.test)
                     self._record_guard(st, cond, self.sub(st.test))
                     body_state.reach = f_and(s.reach, cond)
-                outs += self.block(st.body, [body_state]) if body_state.reach is not False else []
+                n_exits, n_eff = len(self.exits), len(self.effects)
+                these = self.block(st.body, [body_state]) if body_state.reach is not False else []
+                outs += these
                 self.loop_stack.pop()
-                after.append(State(env0, s.reach))
+                post = State(env0, s.reach)
+                comp = self._as_comprehension(st, it, s, these, assigned, n_exits, n_eff) if is_for else None
+                if comp is not None:
+                    post.env = dict(env0)
+                    post.env[comp[0]] = comp[1]
+                    self.converted.setdefault(id(st), 0)
+                    self.converted[id(st)] += 1
+                else:
+                    self.converted[id(st)] = -10 ** 6
+                after.append(post)
             self.loop_out.setdefault(id(st), [])
             self.loop_out[id(st)] += outs
             after = self._dedupe(after)
@@ -886,6 +973,13 @@ class SymWalker:
             return
         for n in ast.walk(e):
             if isinstance(n, ast.Call):
+                f0 = n.func
+                if isinstance(f0, ast.Attribute) and isinstance(f0.value, ast.Name) and f0.value.id in self.functional and f0.attr in ("append", "extend") and len(n.args) == 1 and not n.keywords:
+                    cur = self.env.get(f0.value.id, ast.Name(f0.value.id, ast.Load()))
+                    arg = self.sub(n.args[0])
+                    add = ast.List([arg], ast.Load()) if f0.attr == "append" else (arg if isinstance(arg, (ast.List, ast.ListComp)) else ast.Call(ast.Name("list", ast.Load()), [arg], []))
+                    self.env[f0.value.id] = self.canon.expr(ast.BinOp(copy.deepcopy(cur), ast.Add(), add))
+                    continue
                 subbed = self.sub(n)
                 if not isinstance(subbed, ast.Call):
                     continue        # canonicalised away (bool(int), divmod, inlined helper ...)
@@ -1061,15 +1155,72 @@ def make_inliner(ctx, fi):
     return resolve
 
 
-def mutated_locals(func_node):
-    """locals used as receivers of mutator calls / item stores / augmented item stores: never substituted"""
-    out = set()
+def _mutation_sites(func_node):
+    sites = {}
     for n in ast.walk(func_node):
         if isinstance(n, ast.Call) and isinstance(n.func, ast.Attribute) and isinstance(n.func.value, ast.Name) and n.func.attr in MUTATORS:
-            out.add(n.func.value.id)
+            sites.setdefault(n.func.value.id, []).append(n.func.attr)
         if isinstance(n, (ast.Subscript, ast.Attribute)) and isinstance(n.ctx, (ast.Store, ast.Del)) and isinstance(n.value, ast.Name):
-            out.add(n.value.id)
+            sites.setdefault(n.value.id, []).append("store")
+    return sites
+
+
+def functional_locals(func_node):
+    """locals that are only ever grown with .append / .extend after being bound to a fresh list: modelled as values
+    (X.append(e) is X = X + [e]), so an append loop and the comprehension it spells have one canonical form"""
+    params = {a.arg for a in func_node.args.args + func_node.args.posonlyargs + func_node.args.kwonlyargs}
+    if func_node.args.vararg:
+        params.add(func_node.args.vararg.arg)
+    if func_node.args.kwarg:
+        params.add(func_node.args.kwarg.arg)
+    out = set()
+    inner = set()
+    for n in ast.walk(func_node):
+        if n is not func_node and isinstance(n, (ast.FunctionDef, ast.AsyncFunctionDef, ast.Lambda)):
+            for x in ast.walk(n):
+                if isinstance(x, ast.Name):
+                    inner.add(x.id)        # captured by a closure: identity matters
+    def dominated_by_fresh_binding(name, fresh):
+        """every append site of a PARAMETER is preceded, in its own or an enclosing block, by `name = <fresh list>`"""
+        def visit(block, have):
+            ok = True
+            for st in block:
+                here = have
+                if isinstance(st, (ast.Assign, ast.AnnAssign)) and any(isinstance(t, ast.Name) and t.id == name for t in (st.targets if isinstance(st, ast.Assign) else [st.target])):
+                    have = here = getattr(st, "value", None) is not None and fresh(st.value)
+                    continue
+                subs = [getattr(st, f) for f in ("body", "orelse", "finalbody") if isinstance(getattr(st, f, None), list)]
+                subs += [h.body for h in getattr(st, "handlers", [])]
+                if subs:
+                    for b in subs:
+                        ok = visit(b, have) and ok
+                    if isinstance(st, (ast.For, ast.While)):
+                        pass
+                    continue
+                for n in ast.walk(st):
+                    if isinstance(n, ast.Call) and isinstance(n.func, ast.Attribute) and isinstance(n.func.value, ast.Name) and n.func.value.id == name and n.func.attr in ("append", "extend"):
+                        ok = ok and have
+            return ok
+        return visit(func_node.body, False)
+
+    fresh = lambda v: isinstance(v, (ast.List, ast.ListComp)) or (isinstance(v, ast.Call) and isinstance(v.func, ast.Name) and v.func.id in ("list", "sorted")) or (isinstance(v, ast.BinOp) and isinstance(v.op, ast.Add) and (fresh(v.left) or fresh(v.right)))
+    for name, kinds in _mutation_sites(func_node).items():
+        if name in inner or not all(k in ("append", "extend") for k in kinds):
+            continue
+        if name in params:
+            if dominated_by_fresh_binding(name, fresh):
+                out.add(name)
+            continue
+        binds = [n for n in ast.walk(func_node) if isinstance(n, (ast.Assign, ast.AnnAssign)) and any(isinstance(t, ast.Name) and t.id == name for t in (n.targets if isinstance(n, ast.Assign) else [n.target]))]
+        if binds and all(getattr(b, "value", None) is not None and fresh(b.value) for b in binds):
+            out.add(name)
     return out
+
+
+def mutated_locals(func_node):
+    """locals used as receivers of mutator calls / item stores / augmented item stores: never substituted
+    (except the functional ones, see functional_locals)"""
+    return set(_mutation_sites(func_node)) - functional_locals(func_node)
 
 
 def walk(ctx, fi, leaf=None, keep=(), body=None, int_names=None, inline=False, feasible=None):
@@ -1306,7 +1457,7 @@ def summarize(func_node, canon, leaf=None, keep=()):
     w = SymWalker(func_node, canon, leaf, keep=keep)
     w.run()
     raw = []     # (kind, [parts], cond formula)
-    loops = sorted([n for n in ast.walk(func_node) if isinstance(n, (ast.For, ast.While)) and id(n) in w.loop_out], key=lambda n: (n.lineno, n.col_offset))
+    loops = sorted([n for n in ast.walk(func_node) if isinstance(n, (ast.For, ast.While)) and id(n) in w.loop_out and w.converted.get(id(n), 0) <= 0], key=lambda n: (n.lineno, n.col_offset))
     loop_no = {id(n): i for i, n in enumerate(loops)}
     locals_ = set(_first_store_pos(func_node)) - params
 
@@ -1342,8 +1493,8 @@ def summarize(func_node, canon, leaf=None, keep=()):
                 if v is not None:
                     raw.append(("loop-init", [hdr, " ", ast.Name(name, ast.Load()), " starts as ", v], s.reach))
     for e in w.exits:
-        if e.kind == "fall":
-            raw.append(("exit", ["fall"], e.cond))
+        if e.kind == "fall" or (e.kind == "return" and (e.value is None or (isinstance(e.value, ast.Constant) and e.value.value is None)) and not in_loop_exit(e, func_node, loop_no)):
+            raw.append(("exit", ["return None"], e.cond))
         else:
             v = e.value
             if e.kind == "raise" and isinstance(v, ast.Call):
@@ -1708,4 +1859,22 @@ def enclosing_tries(func_node, node):
     for n in ast.walk(func_node):
         if isinstance(n, ast.Try) and any(x is node for s in n.body for x in ast.walk(s)):
             out.append(n)
+    return out
+
+
+def appended_in_loops(w):
+    """(loop node, list name, element expr, reach) for every `X = X + [elt]` a loop iteration performs on a functional local"""
+    out = []
+    for n in ast.walk(w.node):
+        if isinstance(n, (ast.For, ast.While)) and id(n) in w.loop_out:
+            for st in w.loop_out[id(n)]:
+                for name, v in st.env.items():
+                    cur = v
+                    elts = []
+                    while isinstance(cur, ast.BinOp) and isinstance(cur.op, ast.Add) and isinstance(cur.right, ast.List):
+                        elts = list(cur.right.elts) + elts
+                        cur = cur.left
+                    if elts and isinstance(cur, ast.Name) and cur.id == name:
+                        for e in elts:
+                            out.append((n, name, e, st.reach))
     return out
